@@ -114,8 +114,14 @@ def mock_case(draw, mode='mixed'):
                     sigs.append(s_)
                     kinds.append('unlisted')
         verify = draw(st.booleans())
+        if not any(isinstance(x, tuple) for x in sigs) and draw(st.integers(0, 2)) == 0:
+            # the documented usage: dummy and signatures pushed by the script itself (under CONST_SCRIPTCODE a listed signature is not "found in scriptCode")
+            body += b'\x00' + b''.join(P(x) for x in sigs)
+            kinds.append('in-script')
+            stack = []
+        else:
+            stack = [b''] + sigs
         body += SC.num(len(sigs)) + b''.join(P(k) for k in keys) + SC.num(n) + (b'\xaf\x51' if verify else b'\xae')
-        stack = [b''] + sigs
     else:
         items = []
         for i in range(nchecks):
@@ -212,6 +218,8 @@ def check_mixed(c, ctx):
     nl, nu = c['kinds'].count('listed'), c['kinds'].count('unlisted')
     ctx.case(repr(case_json(c)), nl >= 1 and nu >= 1, dict(case_json(c), expected=exp[1] or 'ok'), 'sv%d:%s:%s' % (c['sv'], c['template'], 'tx' if c['tx'] else 'notx'))
     ctx.count('template:' + c['template'])
+    if 'in-script' in c['kinds'] and nl >= 1:
+        ctx.count('multisig-with-listed-signature-pushed-by-the-script')
     if 'real-valid' in c['kinds'] and nl >= 1:
         ctx.count('listed-pair-next-to-valid-real-signature')
     g = tree_run(c)
@@ -402,7 +410,7 @@ def run(tier, t0):
     m = core.parallel(PID, tasks)
     return core.finish(PID, tier, m, RULE, t0, min_nontrivial=2000 if tier == 'quick' else 80000,
                        assumptions=['reference interpreter with the rule "a listed (S,P) succeeds before any other rule"; everything else is the real check',
-                                    'mocked signatures are supplied on the stack (not embedded in the script), and the tapscript validation weight is not compared for mocked checks (the statement is silent on both)',
+                                    'mocked signatures are supplied on the stack or - for CHECKMULTISIG - pushed by the script; the tapscript validation weight is not compared for mocked checks (the statement is silent on it)',
                                     'for a listed key offered another signature only the direction "accepted => the real check accepts" is asserted'])
 
 
